@@ -231,7 +231,7 @@ def run(ctx):
     quick = ctx.tier == 'quick'
     ENG = eng = ctx.engine()
     nat = ctx.nat()
-    maxL = 2 if quick else 5
+    maxL = 3 if quick else 5
     items = []
     for pos in POSITIONS:
         for b in BACKENDS:
